@@ -12,7 +12,8 @@ import os
 import sys
 
 sys.path.insert(0, os.path.join(os.path.dirname(os.path.dirname(os.path.dirname(os.path.abspath(__file__)))), "harness"))
-import common  # noqa: E402
+import common
+from props import rt  # noqa: E402
 import adapt_gen as ag  # noqa: E402
 
 PID = "C11"
@@ -246,6 +247,28 @@ def shrink(case_dict, kind):
     return cur
 
 
+class _RT:
+    """the runtime-family part of this check: value-returning signals with blocked / re-entrantly disconnected slots"""
+    PID = "C11"
+    N_QUICK = 150
+    N_THOROUGH = 3000
+    KNOWN_IDS = ()
+
+    @staticmethod
+    def profiles(thorough):
+        from runtime import Profile
+        ops = ["newG", "connfn", "emit", "tryemit", "disc", "blockC", "blockG", "clear", "size?", "newT", "delT", "connected?"]
+        return [Profile(allow_only=ops, nT=2, nG=3, nC=8, flavours=["I", "TI", "I", "A"], specs={"fn": 6, "trk": 2, "fwd": 2},
+                        body_prob=0.35, body_len=(1, 2), len=(12, 40),
+                        w={"connfn": 14, "emit": 14, "blockC": 8, "disc": 4, "delT": 2, "blockG": 1},
+                        bw={k: 0 for k in ["connfn", "conn", "clear", "delG", "cpG", "asgG", "masgG", "emit", "tryemit", "callS", "delS",
+                                             "discS", "delC", "delK", "discK", "asgS", "mvS", "setS", "mkS", "newT", "cpC", "relK", "mvK",
+                                             "newK", "mvG", "blockS", "blockG", "notifyT", "throw", "emptyS?"]})]
+
+
+_RTMOD = _RT
+
+
 def correspondence(ctx):
     corpus = load_corpus()
     gen = build_cases(ctx)
@@ -297,6 +320,14 @@ def correspondence(ctx):
             distinct.add(r["line"])
     dist["translation_units"] = {"compiled": b.compiled, "cached": b.cached}
     evaluated = sum(1 for r in results if r["impl"] is not None)
+    # the result clause of C11 ("a result is returned without being replaced by a default unless no slot ran") lives in
+    # the emit loops of the runtime core: run the value-result profile of the operation language too (engine props/rt.py)
+    rtres = rt.run(ctx, _RTMOD)
+    dist["runtime_result_clause"] = {"programs": rtres.get("evaluations", 0), "distribution": rtres.get("distribution", {})}
+    dis = dis + rtres.get("disagreements", [])
+    mon = mon + rtres.get("monitor_failures", [])
+    infra = infra + rtres.get("infra_errors", [])
+    evaluated += rtres.get("evaluations", 0)
     return {
         "evaluations": evaluated + len(edge),
         "distinct_nontrivial": len(distinct),
